@@ -1,0 +1,13 @@
+//go:build verif
+
+package proxycore
+
+// VerifSetPlanCounter places the round-robin plan counter at n so that a check can cross
+// the 32-bit and 64-bit boundaries without creating that many plans. Only built with -tags verif.
+func VerifSetPlanCounter(lb LoadBalancer, n uint64) bool {
+	if l, ok := lb.(*roundRobinLoadBalancer); ok {
+		l.index.Store(n)
+		return true
+	}
+	return false
+}
